@@ -993,12 +993,8 @@ impl Engine for C13 {
         let mut z = rng.split("lazy-jar");
         if z.chance(20) {
             let span = 5 * p.items.len() as u64 + 6;
-            let mut side = |z: &mut Rng| {
-                let mut fail_at: Vec<u32> = (0..z.below(3)).map(|_| z.below(span) as u32).collect();
-                fail_at.sort();
-                fail_at.dedup();
-                crate::simjar::LazyPlan { fail_at, sticky: z.chance(30), io: if z.chance(40) { IoPlan::gen_legal(z) } else { IoPlan::plain() } }
-            };
+            let n = p.items.len() as u64;
+            let side = |z: &mut Rng| crate::simjar::LazyPlan::draw(z, span, n);
             let c = side(&mut z);
             let sv = side(&mut z);
             p.lazy = Some((c, sv));
@@ -1234,8 +1230,15 @@ impl Engine for C13 {
                     if failed {
                         st.probe("lazy.ok_after_failed_entry_operation");
                     }
-                    // the data is intact whatever failed in between: an answer must be THE answer
-                    if let Err((path, d)) = same_observation(&obs0, &o) {
+                    // the data is intact whatever failed in between: an answer must be THE answer. The ORDER of the entries
+                    // of the merged jar follows the order in which the jars list their names, which the property does
+                    // not constrain: with a drawn names order the comparison is by entry name
+                    let (mut a, mut b2) = (obs0.clone(), o.clone());
+                    if lc.names_order != 0 || ls.names_order != 0 {
+                        a.sort_by(|x, y| x.0.cmp(&y.0));
+                        b2.sort_by(|x, y| x.0.cmp(&y.0));
+                    }
+                    if let Err((path, d)) = same_observation(&a, &b2) {
                         let class = if failed { "reader-ok-with-wrong-data" } else { "schedule-dependence" };
                         out.push(Violation::new(tier, class, format!("lazy.{path}"), d));
                     }
@@ -1250,14 +1253,10 @@ impl Engine for C13 {
         let mut c: Vec<Plan> = vec![];
         if let Some((lc, ls)) = &p.lazy {
             c.push(Plan { lazy: None, ..p.clone() });
-            for i in 0..lc.fail_at.len() {
-                let mut l = lc.clone();
-                l.fail_at.remove(i);
+            for l in lc.smaller() {
                 c.push(Plan { lazy: Some((l, ls.clone())), ..p.clone() });
             }
-            for i in 0..ls.fail_at.len() {
-                let mut l = ls.clone();
-                l.fail_at.remove(i);
+            for l in ls.smaller() {
                 c.push(Plan { lazy: Some((lc.clone(), l)), ..p.clone() });
             }
         }
@@ -1412,7 +1411,7 @@ impl Engine for C13 {
                 }
             }
         }
-        (ops + p.lazy.is_some() as u64, (p.c_io.faults.len() + p.s_io.faults.len() + p.lazy.as_ref().map_or(0, |(a, b)| a.fail_at.len() + b.fail_at.len())) as u64)
+        (ops + p.lazy.is_some() as u64, (p.c_io.faults.len() + p.s_io.faults.len() + p.lazy.as_ref().map_or(0, |(a, b)| a.faults() + b.faults())) as u64)
     }
 
     fn rule(&self) -> String {
